@@ -83,7 +83,7 @@ def run_check(prop, tier):
             trace = wl.make_trace(tuple(v["job"]))
             try:
                 small, tests = kernel.minimise(
-                    wl, trace, key,
+                    wl, trace, key, hint_step=v.get("step"),
                     budget_s=float(os.environ.get(
                         "VERIF_MIN_BUDGET",
                         "120" if tier == "quick" else "400")))
